@@ -8,6 +8,10 @@ Job kinds
             noise, lengths that are not whole blocks), put behind a header and decoded by the library through sf_read_*.
   nomono    two channels: the open must be refused (write: by sf_format_check / g72x_init; read: by g72x_init).
 
+Besides the jobs: `pregen` (before the Lean stage) extracts the static tables of src/G72x/*.c by execution into
+lean/SfModel/Generated/G72xTables.lean, and `core_campaign` links src/G72x/*.c alone (ASan) and compares g72x_encode_block /
+g72x_decode_block with the model for all FOUR rates (G.723 16 kbit/s is reachable through no libsndfile format).
+
 Correspondence (kind 'corr'): every write return value, the data region byte for byte, frames at re-open, every read's return value
 and ALL cells of the caller's buffer, every seek's return value, the refusal of two channels.
 
@@ -627,8 +631,17 @@ def run(ctx, prop, njobs):
                       % (len(corr), len(corr_jobs), stats["jobs"], j.name, p.cat, ln, j.lines[ln][:100], p.text[:400], (p.impl or "")[:300], (p.model or "")[:300], prop,
                          "\n".join(j.lines[:ln + 1]) + "\n"), no_input=True)
         found = True
+    cprobs, cstats = core_campaign(ctx, 6 if ctx.tier == "quick" else 60)
+    ctx.count(cstats["core_enc_lines"] + cstats["core_dec_lines"])
+    stats.update(cstats)
+    if cprobs and not found:
+        ctx.violation("%s-g72x-core-correspondence" % prop.lower(),
+                      "# correspondence stream 'G.72x codec core (src/G72x/*.c linked alone) vs Sf.G72x' no longer agrees: %d differing lines\n# %s\n"
+                      "# (the property predicates on the implementation's transcripts found no failing input)\n" % (len(cprobs), cprobs[0]), no_input=True)
+        found = True
     note = {k: v for k, v in sorted(stats.items())}
     note["correspondence_differences"] = len(corr)
+    note["core_correspondence_differences"] = len(cprobs)
     note["predicate_failures_by_category"] = dict(collections.Counter(p.cat for p in probs if p.kind == "pred"))
     ctx.notes["g72x"] = note
     ctx.sample({"kind": "G.72x job (%s)" % prop, "jobs": stats["jobs"], "example": next((t for t in hs.values() if len(t) < 700), next(iter(hs.values()))[:700])})
@@ -638,3 +651,200 @@ def run(ctx, prop, njobs):
                             "(noise, constant codes up to 60 blocks, every code in turn, byte pools, partial last blocks) decoded through all four read types in pieces of {1,2,119..121,240,1000,4095..4097,5000} "
                             "with refused seeks in between; bytes, return values, frame counts and every cell of every read buffer compared with the Lean model (sampled, not exhaustive)")
     return found
+
+
+# ---------------------------------------------------------------------------------------------------
+# tables by execution: the static arrays of src/G72x/*.c, printed by a throw-away program that #includes the sources of
+# the tree under test -> lean/SfModel/Generated/G72xTables.lean -> `g72x_tables_extracted` (SfProps/C05G72x.lean) re-checked
+# ---------------------------------------------------------------------------------------------------
+
+EXTRACT_C = r"""
+#include <stdio.h>
+#define qtab_721 T_g721_qtab
+#define _dqlntab T_g721_dqlntab
+#define _witab T_g721_witab
+#define _fitab T_g721_fitab
+#include "g721.c"
+#undef _dqlntab
+#undef _witab
+#undef _fitab
+#define qtab_723_16 T_g723_16_qtab
+#define _dqlntab T_g723_16_dqlntab
+#define _witab T_g723_16_witab
+#define _fitab T_g723_16_fitab
+#include "g723_16.c"
+#undef _dqlntab
+#undef _witab
+#undef _fitab
+#define qtab_723_24 T_g723_24_qtab
+#define _dqlntab T_g723_24_dqlntab
+#define _witab T_g723_24_witab
+#define _fitab T_g723_24_fitab
+#include "g723_24.c"
+#undef _dqlntab
+#undef _witab
+#undef _fitab
+#define qtab_723_40 T_g723_40_qtab
+#define _dqlntab T_g723_40_dqlntab
+#define _witab T_g723_40_witab
+#define _fitab T_g723_40_fitab
+#include "g723_40.c"
+#undef _dqlntab
+#undef _witab
+#undef _fitab
+#define power2 T_power2
+#include "g72x.c"
+#define P(name, t) do { unsigned k ; printf ("%s", name) ; for (k = 0 ; k < sizeof (t) / sizeof (t [0]) ; k++) printf (" %d", (int) t [k]) ; printf ("\n") ; } while (0)
+int main (void)
+{	P ("g721.qtab", T_g721_qtab) ; P ("g721.dqlntab", T_g721_dqlntab) ; P ("g721.witab", T_g721_witab) ; P ("g721.fitab", T_g721_fitab) ;
+	P ("g723_16.qtab", T_g723_16_qtab) ; P ("g723_16.dqlntab", T_g723_16_dqlntab) ; P ("g723_16.witab", T_g723_16_witab) ; P ("g723_16.fitab", T_g723_16_fitab) ;
+	P ("g723_24.qtab", T_g723_24_qtab) ; P ("g723_24.dqlntab", T_g723_24_dqlntab) ; P ("g723_24.witab", T_g723_24_witab) ; P ("g723_24.fitab", T_g723_24_fitab) ;
+	P ("g723_40.qtab", T_g723_40_qtab) ; P ("g723_40.dqlntab", T_g723_40_dqlntab) ; P ("g723_40.witab", T_g723_40_witab) ; P ("g723_40.fitab", T_g723_40_fitab) ;
+	P ("power2", T_power2) ;
+	printf ("geometry %d %d %d %d %d\n", G72x_BLOCK_SIZE, G723_16_BYTES_PER_BLOCK, G723_24_BYTES_PER_BLOCK, G721_32_BYTES_PER_BLOCK, G723_40_BYTES_PER_BLOCK) ;
+	return 0 ;
+}
+"""
+
+
+def extract_tables():
+    """compile and run the extractor against the tree under test; returns the list of output lines (or raises)"""
+    import os, subprocess, tempfile
+    from . import build
+    src = os.path.join(build.REPO, "src", "G72x")
+    with tempfile.TemporaryDirectory(prefix="g72xtab-") as d:
+        c = os.path.join(d, "extract.c")
+        with open(c, "w") as f:
+            f.write(EXTRACT_C)
+        exe = os.path.join(d, "extract")
+        p = subprocess.run(["gcc", "-O0", "-w", "-I", src, c, "-o", exe], capture_output=True, text=True, timeout=120)
+        if p.returncode != 0:
+            raise RuntimeError("G72x table extractor does not compile against %s:\n%s" % (src, p.stderr[-2000:]))
+        q = subprocess.run([exe], capture_output=True, text=True, timeout=20)
+        if q.returncode != 0:
+            raise RuntimeError("G72x table extractor failed: rc=%d %s" % (q.returncode, q.stderr[-500:]))
+        return [l for l in q.stdout.split("\n") if l.strip()]
+
+
+def lean_tables(lines):
+    out = ["/- GENERATED on every C05 / C06 / C07 check run by vlib/g72x.py `extract_tables`: a throw-away C program #includes",
+           "   src/G72x/g721.c, g723_16.c, g723_24.c, g723_40.c, g72x.c of the tree under test and prints their static arrays and the",
+           "   block geometry of g72x.h.  Not edited by hand.  `g72x_tables_extracted` (SfProps/C05G72x.lean) proves the model's",
+           "   transcribed tables equal to these. -/",
+           "namespace Sf.Generated.G72x", ""]
+    for l in lines:
+        t = l.split()
+        name = t[0].replace(".", "_")
+        out.append("def %s : List Int := [%s]" % (name, ", ".join(t[1:])))
+    out += ["", "end Sf.Generated.G72x", ""]
+    return "\n".join(out)
+
+
+def pregen(ctx):
+    """called by the property modules BEFORE the Lean stage"""
+    try:
+        lines = extract_tables()
+    except Exception as e:               # the tree under test no longer has the tables where the model expects them
+        ctx.notes["g72x_tables"] = "extraction failed: %s" % str(e)[:300]
+        ctx.violation("%s-g72x-table-extraction" % ctx.prop.lower(),
+                      "# the G.72x tables could not be extracted by execution from the tree under test, so the model's tables are not tied to it\n# %s\n" % str(e)[:1500], no_input=True)
+        return
+    changed = ctx.set_generated("G72xTables.lean", lean_tables(lines))
+    ctx.notes["g72x_tables"] = {"entries_extracted": sum(len(l.split()) - 1 for l in lines), "arrays": len(lines), "changed_since_commit": changed}
+
+
+# ---------------------------------------------------------------------------------------------------
+# the codec core alone, all FOUR rates (G.723 16 kbit/s is in src/G72x but reachable through no libsndfile format): a throw-away
+# program links src/G72x/*.c of the tree under test (ASan) and runs g72x_encode_block / g72x_decode_block on whole blocks;
+# the model answers the same lines with `sfmodel g72x enc|dec <bits>`
+# ---------------------------------------------------------------------------------------------------
+
+CORE_C = r"""
+#include <stdio.h>
+#include <stdlib.h>
+#include <string.h>
+#include "g72x.h"
+static int hv (int c) { return c <= '9' ? c - '0' : (c | 32) - 'a' + 10 ; }
+int main (int argc, char **argv)
+{	int bits = atoi (argv [2]), enc = argv [1][0] == 'e', bs, spb ;
+	static char line [1 << 20] ;
+	while (fgets (line, sizeof (line), stdin))
+	{	size_t n = strcspn (line, "\r\n"), k, i ;
+		struct g72x_state *st = enc ? g72x_writer_init (bits, &bs, &spb) : g72x_reader_init (bits, &bs, &spb) ;
+		if (st == NULL) { printf ("init-failed\n") ; continue ; }
+		if (enc)
+		{	size_t ns = n / 4 ;
+			for (k = 0 ; k < ns ; k += G72x_BLOCK_SIZE)
+			{	short samples [G72x_BLOCK_SIZE] ; unsigned char block [G72x_BLOCK_SIZE] ;
+				memset (samples, 0, sizeof (samples)) ;
+				for (i = 0 ; i < G72x_BLOCK_SIZE && k + i < ns ; i++)
+				{	const char *p = line + 4 * (k + i) ;
+					samples [i] = (short) ((hv (p [0]) << 12) | (hv (p [1]) << 8) | (hv (p [2]) << 4) | hv (p [3])) ;
+					}
+				g72x_encode_block (st, samples, block) ;
+				for (i = 0 ; i < (size_t) bs ; i++) printf ("%02x", block [i]) ;
+				}
+			}
+		else
+		{	size_t nb = n / 2 ;
+			for (k = 0 ; k + bs <= nb ; k += bs)
+			{	short samples [G72x_BLOCK_SIZE] ; unsigned char block [G72x_BLOCK_SIZE] ;
+				memset (block, 0, sizeof (block)) ;
+				for (i = 0 ; i < (size_t) bs ; i++) block [i] = (unsigned char) ((hv (line [2 * (k + i)]) << 4) | hv (line [2 * (k + i) + 1])) ;
+				g72x_decode_block (st, block, samples) ;
+				for (i = 0 ; i < G72x_BLOCK_SIZE ; i++) printf ("%04x", samples [i] & 0xFFFF) ;
+				}
+			}
+		printf ("\n") ;
+		free (st) ;
+		}
+	return 0 ;
+}
+"""
+
+
+def core_campaign(ctx, nlines):
+    """returns (problems as text lines, stats)"""
+    import os, subprocess, tempfile
+    from . import build
+    rng = ctx.rng
+    src = os.path.join(build.REPO, "src", "G72x")
+    stats = collections.Counter()
+    probs = []
+    with tempfile.TemporaryDirectory(prefix="g72xcore-") as d:
+        c = os.path.join(d, "core.c")
+        with open(c, "w") as f:
+            f.write(CORE_C)
+        exe = os.path.join(d, "core")
+        files = [os.path.join(src, x) for x in ("g72x.c", "g721.c", "g723_16.c", "g723_24.c", "g723_40.c")]
+        p = subprocess.run(["gcc", "-O1", "-g", "-w", "-fsanitize=address", "-I", src, c] + files + ["-o", exe], capture_output=True, text=True, timeout=300)
+        if p.returncode != 0:
+            return ["the codec-core runner does not compile against %s: %s" % (src, p.stderr[-800:])], stats
+        for bits in (2, 3, 4, 5):
+            B = bpb(bits)
+            enc_lines, dec_lines = [], []
+            for k in range(nlines):
+                n = rng.choice([1, 119, 120, 121, 240, 600, 1200, 3000])
+                enc_lines.append(K.hex_items(content(rng, rng.choice(CONTENTS), n), 4))
+                nb = rng.choice([1, 2, 5, 12, 30, 45]) * B
+                dec_lines.append("".join("%02x" % b for b in adversarial(rng, bits, rng.choice(["noise", "const", "cycle", "bytepool", "runs"]), nb)))
+            for what, lines in (("enc", enc_lines), ("dec", dec_lines)):
+                inp = "\n".join(lines) + "\n"
+                q = subprocess.run([exe, what, str(bits)], input=inp, capture_output=True, text=True, timeout=300, env=dict(os.environ, ASAN_OPTIONS="detect_leaks=0"))
+                if q.returncode != 0:
+                    probs.append("codec-core runner %s %d died (rc=%d): %s\ninput line 0: %s" % (what, bits, q.returncode, q.stderr[-600:], lines[0][:400]))
+                    continue
+                impl = q.stdout.split("\n")
+                model = ctx.run_model(["g72x", what, str(bits)], inp, timeout=600).split("\n")
+                for i, l in enumerate(lines):
+                    a, b = (impl[i] if i < len(impl) else "<missing>").strip(), (model[i] if i < len(model) else "<missing>").strip()
+                    stats["core_%s_lines" % what] += 1
+                    stats["core_%s_%s" % (what, "bytes" if what == "enc" else "samples")] += len(a) // (2 if what == "enc" else 4)
+                    stats["core_rate_%d" % bits] += 1
+                    if a != b:
+                        w = 2 if what == "enc" else 4
+                        dd = next((j for j in range(0, min(len(a), len(b)), w) if a[j:j + w] != b[j:j + w]), min(len(a), len(b)))
+                        probs.append("g72x_%s_block, %d bits per sample: %s %d differs (lengths %d / %d): implementation …%s model …%s\ninput: %s"
+                                     % ("encode" if what == "enc" else "decode", bits, "byte" if what == "enc" else "sample", dd // w, len(a) // w, len(b) // w,
+                                        a[max(0, dd - 8):dd + 16], b[max(0, dd - 8):dd + 16], l[:2000]))
+    return probs, stats
